@@ -50,25 +50,46 @@ Theorem C09_subscription_origin : forall c bg ops u,
   sb_sub (sb_run c bg ops) = Some u -> exists m w, In (OSubscribe m w) ops /\ u_m0 u = m /\ u_win u = w.
 Proof. exact sub_origin. Qed.
 
-(* Liveness, the part that is proved (on the model only): whenever the subscription task has nothing
-   left to do (live, nothing received and waiting for the window, channel empty, not lagged), every
-   event of each of its keys from the start position (the explicit one, or the first delivered record)
-   that lies below the broadcast position next_broadcast_seq has been delivered.  After every OBcast p
-   the broadcast position of p equals its watermark, so this is "every confirmed matching event at or
-   after the start position has been delivered once the task is idle after the last broadcast".
-   NOT proved: that the task always becomes idle under fair scheduling (termination of the drain: the
-   window reopens only through acknowledgements, a pause point only through OHistBatch), i.e. the full
-       C09_eventual : under fair scheduling every confirmed matching event at or after the start position
-                      is eventually delivered
-   Also outside the model: events confirmed through the replica path (ConfirmTransaction ->
-   UpdateConfirmation) are not broadcast until the next coordinator write on that partition
-   (confirmation/actor.rs: pending_events is never filled), so "eventually" depends on such a write. *)
-Theorem C09_eventual_partial : forall c bg ops u,
+(* Completeness at rest (model only): whenever the subscription task has nothing left to do (live, nothing
+   received and waiting for the window, channel empty, not lagged), every event of each of its keys from the
+   start position (the explicit one, or the first delivered record) that lies below the broadcast position
+   next_broadcast_seq has been delivered. *)
+Theorem C09_idle_complete : forall c bg ops u,
   c_brk c = true -> ops_wf ops -> let st := sb_run c bg ops in sb_sub st = Some u -> sub_idle u ->
   forall k first, key_kind (u_m0 u) k = true -> kpid c k < c_np c ->
     (sub_start (u_m0 u) k = Some first \/ (dpos k (u_out u) <> [] /\ first = hd 0 (dpos k (u_out u)))) ->
     forall e, In e (klog c st k) -> first <= kpos k e -> e_seq e < sb_nb st (kpid c k) -> In e (map d_ev (u_out u)).
 Proof. exact sub_idle_complete. Qed.
+
+(* Liveness (model only), the part that is proved: from EVERY reachable state with a subscription of window
+   >= 1 there is a continuation that consists only of one broadcast per partition (the confirmation actor's
+   UpdateConfirmationWithBroadcast), acknowledgements and steps of the subscription task itself — no new
+   appends or confirmations are needed, nothing can be stuck for good: not at a pause point, not behind the
+   window, not after a lag — at the end of which the task is idle and has delivered every event of each of
+   its keys from the start position on that is below the confirmed watermark.  The continuation is the fair
+   policy "acknowledge the last cursor whenever the window is closed; fetch the rest of the first pending
+   iterator; otherwise let the task take its next step" (termination by a measure: Proofs, hist_done /
+   live_done / drain_to_idle).
+   NOT proved, hence _partial: the statement for EVERY fair schedule
+       C09_eventual : in every infinite execution in which broadcasts, acknowledgements and the task's own
+                      steps occur infinitely often, every confirmed matching event at or after the start
+                      position is delivered at some point.
+   (With the safety theorems above a different schedule can only deliver the same events in the same per-key
+   order; what is missing is the fairness formalisation itself.)  Window 0 is excluded: send_record never lets
+   a record through (gap = cursor + 1 > 0).
+   Outside the model: on the real node events confirmed through the replica path (ConfirmTransaction ->
+   UpdateConfirmation) are broadcast only by the next coordinator / replicated write on that partition
+   (confirmation/actor.rs: pending_events is never filled), so "eventually" depends on such a write. *)
+Theorem C09_eventual_partial : forall c bg ops u,
+  c_brk c = true -> ops_wf ops -> sb_sub (sb_run c bg ops) = Some u -> 1 <= u_win u ->
+  exists more, Forall (fun o => is_drain o = true) more /\
+    let st := sb_run c bg ops in let st' := sb_run c bg (ops ++ more) in
+    sb_log st' = sb_log st /\ sb_wm st' = sb_wm st /\
+    exists u', sb_sub st' = Some u' /\ sub_idle u' /\ u_m0 u' = u_m0 u /\
+      forall k first, key_kind (u_m0 u) k = true -> kpid c k < c_np c ->
+        (sub_start (u_m0 u) k = Some first \/ (dpos k (u_out u') <> [] /\ first = hd 0 (dpos k (u_out u')))) ->
+        forall e, In e (klog c st k) -> first <= kpos k e -> e_seq e < sb_wm st (kpid c k) -> In e (map d_ev (u_out u')).
+Proof. exact sub_eventual. Qed.
 
 (* the stream history reader before commit 6d8d4bd ([c_brk = false]): an unconfirmed event only left
    the inner loop; when the watermark moved before the next batch, that batch was delivered and the rest
@@ -117,5 +138,6 @@ Qed.
 Print Assumptions C09_order_once_nogap.
 Print Assumptions C09_window.
 Print Assumptions C09_subscription_origin.
+Print Assumptions C09_idle_complete.
 Print Assumptions C09_eventual_partial.
 Print Assumptions C09_stream_break_refuted.
